@@ -1622,20 +1622,22 @@ def _tendon_actuator_force(
 
 
 @wp.kernel
-def _tendon_actuator_force_cutoff(
+def _accumulated_sensor_cutoff(
   # Model:
   sensor_type: wp.array[int],
   sensor_datatype: wp.array[int],
   sensor_adr: wp.array[int],
   sensor_cutoff: wp.array[float],
-  sensor_tendonactfrc_adr: wp.array[int],
   # Data in:
   sensordata_in: wp.array2d[float],
+  # In:
+  sensorid_in: wp.array[int],
   # Data out:
   sensordata_out: wp.array2d[float],
 ):
-  worldid, tenactfrcid = wp.tid()
-  sensorid = sensor_tendonactfrc_adr[tenactfrcid]
+  """Applies the cutoff to scalar sensors accumulated by an earlier kernel."""
+  worldid, accumulatedid = wp.tid()
+  sensorid = sensorid_in[accumulatedid]
   adr = sensor_adr[sensorid]
   val = sensordata_in[worldid, adr]
 
@@ -2559,6 +2561,13 @@ def sensor_acc(m: Model, d: Data):
     ],
   )
 
+  wp.launch(
+    _accumulated_sensor_cutoff,
+    dim=(d.nworld, m.sensor_touch_adr.size),
+    inputs=[m.sensor_type, m.sensor_datatype, m.sensor_adr, m.sensor_cutoff, d.sensordata, m.sensor_touch_adr],
+    outputs=[d.sensordata],
+  )
+
   weld_geom_count = wp.zeros((d.nworld, m.nbody), dtype=int)
   weld_geom_list = wp.full((d.nworld, m.nbody, MJ_MAXCONPAIR), -1, dtype=int)
   wp.launch(
@@ -2750,16 +2759,9 @@ def sensor_acc(m: Model, d: Data):
   )
 
   wp.launch(
-    _tendon_actuator_force_cutoff,
+    _accumulated_sensor_cutoff,
     dim=(d.nworld, m.sensor_tendonactfrc_adr.size),
-    inputs=[
-      m.sensor_type,
-      m.sensor_datatype,
-      m.sensor_adr,
-      m.sensor_cutoff,
-      m.sensor_tendonactfrc_adr,
-      d.sensordata,
-    ],
+    inputs=[m.sensor_type, m.sensor_datatype, m.sensor_adr, m.sensor_cutoff, d.sensordata, m.sensor_tendonactfrc_adr],
     outputs=[d.sensordata],
   )
 
